@@ -108,6 +108,8 @@ def parse_eh_frame(elf):
             else:
                 _, p = _uleb(data, p)
             fde_enc = 0x00
+            lsda_enc = None
+            personality = None
             if aug.startswith("z"):
                 _alen, p = _uleb(data, p)
                 for ch in aug[1:]:
@@ -115,25 +117,32 @@ def parse_eh_frame(elf):
                         fde_enc = data[p]
                         p += 1
                     elif ch == "L":
+                        lsda_enc = data[p]
                         p += 1
                     elif ch == "P":
                         penc = data[p]
                         p += 1
-                        _, p = _read_enc(data, p, penc, sec.addr + p, 0)
+                        personality, p = _read_enc(data, p, penc, sec.addr + p, 0)
                     elif ch == "S" or ch == "B":
                         pass
-            cies[start] = fde_enc
+            cies[start] = (fde_enc, aug, lsda_enc, personality)
         else:
             cie_off = body - cie_id
             if cie_off not in cies:
                 problems.append(f"FDE at {start:#x} refers to CIE at {cie_off:#x} which is not a CIE")
                 off = end
                 continue
-            enc = cies[cie_off]
+            enc, aug, lsda_enc, personality = cies[cie_off]
             p = body + 4
             pc_begin, p2 = _read_enc(data, p, enc, sec.addr + p, 0)
-            pc_range, _ = _read_enc(data, p2, enc & 0x0F, 0, 0)
-            fdes.append({"addr": sec.addr + start, "pc_begin": pc_begin, "pc_range": pc_range})
+            pc_range, p3 = _read_enc(data, p2, enc & 0x0F, 0, 0)
+            lsda = None
+            if aug.startswith("z"):
+                _alen, p4 = _uleb(data, p3)
+                if lsda_enc is not None and lsda_enc != 0xFF:
+                    lsda, _ = _read_enc(data, p4, lsda_enc, sec.addr + p4, 0)
+            fdes.append({"addr": sec.addr + start, "pc_begin": pc_begin, "pc_range": pc_range,
+                         "cie": cie_off, "personality": personality, "lsda": lsda})
         off = end
     return fdes, problems
 
@@ -217,6 +226,40 @@ def check(elf, g, reach, syms):
         if n != 1:
             problems.append(f"retained function {name} has {n} FDEs")
     stats["checked_functions"] = len(need)
+    # Functions with a personality and an LSDA: the FDE must use a CIE whose personality pointer is the
+    # address of that personality routine, and its LSDA pointer must address the bytes of that
+    # function's `.gcc_except_table` section (which nothing else references, so this is also a
+    # reachability check through .eh_frame).
+    from .gen_graph import lsda_marker
+    by_pc = {f["pc_begin"]: f for f in fdes}
+    nl = 0
+    for i in sorted(reach):
+        n = g.nodes[i]
+        if n.kind != "func" or getattr(n, "lsda", None) is None:
+            continue
+        s = syms.get(n.name)
+        if s is None:
+            continue
+        f = by_pc.get(s.value)
+        if f is None:
+            continue  # already reported above
+        nl += 1
+        pers = syms.get(f"pers_{n.lsda}")
+        if pers is None:
+            problems.append(f"personality routine pers_{n.lsda} of retained function {n.name} is "
+                            f"missing from the output")
+        elif f["personality"] != pers.value:
+            problems.append(f"FDE of {n.name}: CIE personality pointer {f['personality']} is not "
+                            f"pers_{n.lsda} ({pers.value:#x})")
+        if f["lsda"] is None:
+            problems.append(f"FDE of {n.name} has no LSDA pointer")
+        else:
+            got = elf.read_vaddr(f["lsda"], 8)
+            want = lsda_marker(n).to_bytes(8, "little")
+            if got != want:
+                problems.append(f"FDE of {n.name}: LSDA pointer {f['lsda']:#x} does not address that "
+                                f"function's LSDA (found {got.hex() if got else None})")
+    stats["lsda_functions_checked"] = nl
     return problems, stats
 
 
